@@ -207,6 +207,26 @@ func multiScenarios() []*harness.Scenario {
 			After:  5,
 		},
 		{
+			// three of four validators unstake EVERYTHING right before the decisive vote of the fourth: when the block
+			// hook finalises the proposal and shares out its funds, most validator records carry no power (they are
+			// kept until their validators have left Tendermint's set). (Added after a seeded change - the validators'
+			// share divided by the number of records WITH power but paid to every record - escaped the ledger check:
+			// the over-payment only exceeds what the same distribution burns when most records are powerless.)
+			Kind: action.PROPOSAL_VOTE.String(), Note: "multi-decisive-vote-after-most-validators-unstaked-everything",
+			World: func() *harness.World { return harness.NewWorld("multi-powerless", 5, 4) },
+			Prefix: func(w *harness.World) []harness.BlockSpec {
+				bs := gov.PrefixUpToFirstVote(w, gov.PID("multi-powerless"))
+				var txs []*harness.TxSpec
+				for _, i := range []int{0, 2, 3} {
+					v := w.Vals[i]
+					txs = append(txs, stk.Unstake(v.Val, v.Stake, stk.WholeOLT(v.Power), fmt.Sprintf("pl-u%d", i)))
+				}
+				return append(bs, harness.BlockSpec{Txs: txs})
+			},
+			Target: func(w *harness.World) *harness.TxSpec { return gov.SecondYesVote(w, gov.PID("multi-powerless")) },
+			After:  5,
+		},
+		{
 			// an EVM call that clears a storage slot (non-zero -> zero): the only way to a gas refund
 			Kind: action.OLVM.String(), Note: "multi-call-clears-storage-slot-gas-refund",
 			World: func() *harness.World { return harness.NewWorld("multi-refund", 4, 3) },
